@@ -95,7 +95,8 @@ class C22(UICheck):
             "error message (outcome class from the real processCommand; a panic, an unexpected error return or > 200 "
             "consumed input lines is a violation); non-trivial = session with >= 2 lines; distinct by session script")
     assumptions = ["in-process driving of UI.processCommand; terminal size handling of view.Print is outside this check",
-                   "prompts are answered with '0' (valid value, and accepted by 'Press ENTER')"]
+                   "prompts are answered with '0' (valid value, and accepted by 'Press ENTER') except in the sessions that vary "
+                   "the typed value (in range, 2^(8w), far out of range, other bases, 600 digits, malformed then valid)"]
 
     def groups(self, tier, seed):
         rng = random.Random(seed * 295075147 + 22)
@@ -158,6 +159,21 @@ class C22(UICheck):
                     session(kind, ls)
             for el in emu_lines:
                 session(kind, [cmd("", ["entry"]), cmd("", ["e"]), cmd("", el), cmd("", ["s"])])
+            # what is typed at the emulator's value prompts (every later prompt of the session gets the same answer;
+            # "a\n\nb": a malformed line, the line acknowledging the error message, then the prompt asks again): in range, exactly 2^(8w), far out of range in both
+            # directions, other bases, very long
+            fills = ["0", "1", "-1", "255", "256", "65536", "4294967296", "18446744073709551615", "18446744073709551616",
+                     "-18446744073709551616", "-36893488147419103232", "0x" + "f" * 40, "0b" + "1" * 70, "0" + "7" * 30,
+                     "9" * 600, "\n\n7", "zz\n\n256", "1_0\nx\n18446744073709551616", "-\n\n-300", "0x\n0\n0x1ff"]
+            for fi, fill in enumerate(fills):
+                for start in range(1, L - 1):
+                    if tier == "quick" and (start + fi) % 3:
+                        continue
+                    ls = [cmd("", ["goto", str(start)], [{"kind": "num", "v": start}]), cmd("", ["e"])]
+                    ls += [cmd("", ["s"], filler=fill), cmd("", ["s"], filler=fill), cmd("", ["regmod", "x1"], filler=fill),
+                           cmd("", ["regmod", "x5"], filler=fill), cmd("", ["s"], filler=fill), cmd("", ["memory", "memory"]),
+                           {"case": "", "op": "render", "n": 8}]
+                    session(kind, ls)
             for mkey in ("memory", "nokey"):
                 for ml in mem_lines:
                     for steps in (0, 2):
